@@ -87,6 +87,9 @@ func checkC01(c *Ctx) {
 	c.Rule("C01-R31", "nearest palette entry otherwise: the colour cache maps a colour to itself (the palette's identity entries) or to what FindColor answered; nothing else is pre-seeded (bright i+8 to basic i sends grey to black)")
 	c.Expect("C01-R31", 1)
 	checkColourCacheEntries(c, p, "C01-R31")
+	c.Rule("C01-R33", "the nearest palette entry for a colour the terminal lacks, direct colour on or off: the palette and the identity entries of the colour cache are sized by the description's colour count, not by what Colors() reports under direct colour")
+	c.Expect("C01-R33", 1)
+	checkPaletteSizedByDescription(c, p, "C01-R33")
 	c.Rule("C01-R32", "the rune the application last set there, also after the window grew: SetContent stores what it is given (a wide rune in the last column is blanked when drawn, not when stored; = C08-R11)")
 	c.Expect("C01-R32", 2)
 	checkSetContentStoresWhatItIsGiven(c, p, "C01-R32")
